@@ -33,7 +33,7 @@ pub struct GenCfg {
 }
 
 pub const NAMES3: &[&str] = &["a", "b", "c"];
-pub const NAMES_ADV: &[&str] = &["a", "b", "c", "é", "日本", "d e", ".hid", "x.tar.gz", "..x", "😀"];
+pub const NAMES_ADV: &[&str] = &["a", "b", "ab", "c", "é", "日本", "d e", ".hid", "x.tar.gz", "..x", "😀"];
 
 fn sel() -> impl Strategy<Value = Sel> {
     (any::<u8>(), any::<u16>(), any::<u8>()).prop_map(|(class, idx, spell)| Sel { class, idx, spell })
